@@ -16,6 +16,7 @@ JudgeFiles(c) ==
     /\ Chk(ObsAreMeasured(c), c, "C19 an observation value does not read back as the measured master-curve value at that level", 0)
     /\ Chk(SimAligned(c), c, "C19 the simulation output does not have one value per instruction after each marker", 0)
     /\ \A k \in 1..Len(c.sim.lens) : Chk(SimFits(c, k), c, "C19 a simulated value does not fit the columns the instruction file reads", k)
+    /\ Chk(SimAtSameLevels(c), c, "C19 the k-th simulated value is not the value at the water level of the k-th observation", 0)
     /\ Chk(TemplateFills(c), c, "C19 filling the template with the original values does not give back the parameter file", 0)
     /\ Chk(ShapeAsExpected(c, c.shape), c, "C19 names / groups / markers differ from the documented structure for this shape", 0)
 
